@@ -82,9 +82,16 @@ def expr_kind(prog: Program, model: Optional[Model], fi: FuncInfo, e: ast.expr, 
         if base == "str":
             return "str"
         return "unknown"
+    if isinstance(e, (ast.Tuple, ast.List)) and e.elts and not any(isinstance(x, ast.Starred) for x in e.elts):
+        ks = {expr_kind(prog, model, fi, x, depth + 1) for x in e.elts}
+        return "seq:" + (ks.pop() if len(ks) == 1 else "unknown")
     if isinstance(e, ast.Call):
         f = e.func
         if isinstance(f, ast.Attribute) and f.attr == "join":
+            return "str"
+        if isinstance(f, ast.Attribute) and f.attr in ("lower", "upper", "strip", "lstrip", "rstrip", "swapcase", "casefold",
+                                                        "capitalize", "title", "replace", "format") \
+                and expr_kind(prog, model, fi, f.value, depth + 1) == "str":
             return "str"
         if isinstance(f, ast.Name) and f.id in ("str", "repr", "chr"):
             return "str"
